@@ -494,11 +494,12 @@ class G:
             for p in info["req"] + [o for o in info["opt"] if self.chance(40)]:
                 kind = self.pick(["lit", "expr", "mix"])
                 if kind == "lit":
-                    v = self.pick(["abc", "a b", "1", ""])
+                    v = self.pick(["abc", "a b", "1", "", " ", "  "])
                 elif kind == "expr":
                     v = "${%s}" % self.simple_arg(sc)
                 else:
-                    v = self.pick(["x${%s}y${cs}", "${%s}-t", "pre-${%s}", "a${cs}b${%s}"]) % self.pick(
+                    # (every literal piece of a mixture counts, also one that is white space only)
+                    v = self.pick(["x${%s}y${cs}", "${%s}-t", "pre-${%s}", "a${cs}b${%s}", "${%s} ${cs}", " ${%s}", "${cs}  ${%s}\t"]) % self.pick(
                         ["cs", "'q'", "cs if cn > 2 else 'w'", "ident(cs) if cn > 5 else ident('w')", "cs or ident('z')",
                          "ident('') or ident(cs)", "cn > 2 and ident(cs)"] + [v for v, ty in sc.vars[-2:] if ty == "str"])
                 attrs.append([p, kind, v])
